@@ -172,6 +172,7 @@ pub fn run(ctx: &Ctx) -> i32 {
                 Ok(o) => {
                     let txt = String::from_utf8_lossy(&o.stdout);
                     let mut got = false;
+                    let mut forwarded = false;
                     for l in txt.lines() {
                         if let Some(j) = l.strip_prefix("CHILD_RESULT ") {
                             if let Ok(v) = serde_json::from_str::<Value>(j) {
@@ -187,8 +188,19 @@ pub fn run(ctx: &Ctx) -> i32 {
                                 }
                             }
                         } else if l.starts_with("VIOLATION") || l.starts_with("  key:") || l.starts_with("  what:") {
+                            if l.starts_with("VIOLATION") {
+                                forwarded = true;
+                            }
                             println!("{l}");
                         }
+                    }
+                    if !got && forwarded {
+                        // the child reported violations and was then taken down by a panic inside
+                        // the library: its verdict stands although it could not send its summary
+                        crate::common::VIOLATION_PRINTED.store(true, std::sync::atomic::Ordering::SeqCst);
+                        ctx.note("the chk build reported the violations printed above and then died of a library panic outside a guarded step; its counters are missing".to_string());
+                        let _ = ctx.finish(json!({"exhaustive": false, "bounds": "chk build aborted by a library panic"}), vec![]);
+                        return 1;
                     }
                     if !got {
                         eprintln!("machinery error: the chk build produced no result (exit {:?})\n{}", o.status.code(), String::from_utf8_lossy(&o.stderr).lines().take(20).collect::<Vec<_>>().join("\n"));
